@@ -77,14 +77,14 @@ func propSpecs() map[string]*PropSpec {
 	}
 	add(&PropSpec{
 		ID: "C12", Title: "scanning, parsing and compiling are total", OwnsPanic: true,
-		Quick: append(append(append(deep(64, 25000000), deep(160, 60000000, 10, 13, 23, 24, 25, 26, 27)...), c12long(70)...), []RunSpec{rs("H_C12", 1, 0), rs("H_C12", 2, 0), rs("H_C12", 3, 0), rs("H_C12", 4, 7), rs("H_C12", 3, 1),
+		Quick: append(append(append(append([]RunSpec{{Harness: "H_C12letdouble", Args: []int64{30}, Budget: 3000000}}, deep(64, 25000000)...), deep(160, 60000000, 10, 13, 23, 24, 25, 26, 27)...), c12long(70)...), []RunSpec{rs("H_C12", 1, 0), rs("H_C12", 2, 0), rs("H_C12", 3, 0), rs("H_C12", 4, 7), rs("H_C12", 3, 1),
 			rs("H_C12tok", 1, 2), rs("H_C12tok", 2, 2), rs("H_C12tok", 3, 2), rs("H_C12tok", 4, 2), rs("H_C12tok", 5, 4), rs("H_C12tok", 6, 4),
 			rs("H_C12names", 0), rs("H_C12names", 1), rs("H_C12names", 2), rs("H_C12names", 3), rs("H_C12names", 4), rs("H_C12names", 5), rs("H_C12names", 6), rs("H_C12names", 7)}...),
 		Thorough: append(append(append(deep(128, 100000000), deep(320, 100000000, 1, 2, 5, 7, 10, 11, 12, 13, 14, 23, 24, 25, 26, 27)...), c12long(300)...), []RunSpec{rs("H_C12", 1, 0), rs("H_C12", 2, 0), rs("H_C12", 3, 0), rs("H_C12", 5, 5), rs("H_C12", 5, 1), rs("H_C12", 5, 2), rs("H_C12", 5, 3),
 			rs("H_C12tok", 1, 0), rs("H_C12tok", 2, 0), rs("H_C12tok", 3, 0), rs("H_C12tok", 4, 2), rs("H_C12tok", 5, 2), rs("H_C12tok", 6, 4), rs("H_C12tok", 7, 4),
 			rs("H_C12names", 0), rs("H_C12names", 1), rs("H_C12names", 2), rs("H_C12names", 3), rs("H_C12names", 4), rs("H_C12names", 5), rs("H_C12names", 6), rs("H_C12names", 7)}...),
-		Covers: []string{"has-token", "parsed", "parse-error", "compiled", "compile-error", "walked", "has-semicolon-token", "kilobytes", "long-bytes"},
-		Bounds: map[string]string{"quick": "all byte strings of length <= 3, length <= 4 over the bracket/semicolon alphabet; 8 name-collision shapes with arbitrary tokens in the name slots; all token sequences of length <= 4 over the 55-lexeme vocabulary and <= 6 over the 33-lexeme vocabulary; 6 parameter maps (one with empty and sign-only texts); 32 families of deep/long/wide programs (erroneous cores under indexed parentheses / calls / in-lists, nested parentheses, calls, in-lists, joins with and without conditions, index and sign chains, long sums, pipelines, let chains, column lists, unbalanced and unclosed brackets, error-token runs, empty statements, single lists of many arguments / values / conditions) at nesting/repetition 64 (up to 3.5 KB; the wide ones also at 160) with two arbitrary tokens inside, each path within 25M (60M) interpreted instructions; 17 framed byte-level families (long strings, quoted names, comments, numbers, unterminated literals ending in multi-byte or stray continuation bytes) with runs of every length 0..70, alone and as a where operand",
+		Covers: []string{"has-token", "parsed", "parse-error", "compiled", "compile-error", "walked", "has-semicolon-token", "kilobytes", "long-bytes", "let-doubling"},
+		Bounds: map[string]string{"quick": "all byte strings of length <= 3, length <= 4 over the bracket/semicolon alphabet; 8 name-collision shapes with arbitrary tokens in the name slots; all token sequences of length <= 4 over the 55-lexeme vocabulary and <= 6 over the 33-lexeme vocabulary; 6 parameter maps (one with empty and sign-only texts); the let-doubling program (30 lets each mentioning the previous binding twice: known finding); 32 families of deep/long/wide programs (erroneous cores under indexed parentheses / calls / in-lists, nested parentheses, calls, in-lists, joins with and without conditions, index and sign chains, long sums, pipelines, let chains, column lists, unbalanced and unclosed brackets, error-token runs, empty statements, single lists of many arguments / values / conditions) at nesting/repetition 64 (up to 3.5 KB; the wide ones also at 160) with two arbitrary tokens inside, each path within 25M (60M) interpreted instructions; 17 framed byte-level families (long strings, quoted names, comments, numbers, unterminated literals ending in multi-byte or stray continuation bytes) with runs of every length 0..70, alone and as a where operand",
 			"thorough": "all byte strings of length <= 3, <= 5 over focused alphabets; all token sequences <= 3 over the full vocabulary, <= 5 over 55 lexemes, <= 7 over 33 lexemes; deep/long families at 128 (all) and 320 (the linear ones, up to 18 KB), each path within 100M interpreted instructions"},
 		Outside: []string{"inputs beyond the bounds", "the wall-clock clause in general (a complexity claim): decided only for the listed deep/long families, as an instruction bound per path plus a native replay under a 5 s watchdog when the bound is exceeded", "step budget per path 400000 SSA instructions for the short inputs: exhaustion is replayed natively under a 5 s watchdog"},
 		Stubs:   []string{"parser.Scan summarised on token-slot sources from tables derived on this run from the real Scan (one-token locality validated on all lexeme pairs)"},
